@@ -1,6 +1,6 @@
 (* Proofs for C06: multi-entry containers list every entry, in order. *)
 From WI Require Import Lib.Base Lib.Info Lib.Strings Lib.Time Model.Containers.
-From WI Require Model.Base64 Model.Pem Model.Routes Proofs.Base64 Proofs.Pem.
+From WI Require Model.Base64 Model.Pem Model.Routes Proofs.Base64 Proofs.Pem Model.Dispatch.
 From Coq Require Import ZifyN ZifyNat ZifyBool.
 Open Scope N_scope.
 
@@ -3001,4 +3001,136 @@ Lemma keystore_file_accepted : forall secret cert_info enc_name desc data es,
 Proof.
   intros secret cert_info enc_name desc data es Hp Hcalm. unfold keystore_file. rewrite Hp.
   now rewrite jks_entries_total.
+Qed.
+
+(* ====================================================================== *)
+(* Part J.  file.Inspect routes every file that starts with a block to PEMFile, whatever the label *)
+
+Module D := WI.Model.Dispatch.
+
+Definition pgp_begin : bytes := pem_begin ++ bs "PGP ".
+Definition is_pemfile_row (r : row) : bool :=
+  bytes_eqb (r_parser r) (bs "PEMFile") && existsb (bytes_eqb pem_begin) (r_magics r).
+(* a row in front of the generic PEM row: no sniffer, and each of its magics either cannot be the start of a text
+   that starts with "-----BEGIN " (neither is a prefix of the other) or is PGP armor ("-----BEGIN PGP ...") *)
+Definition row_lets_pem_pass (r : row) : bool :=
+  is_nil (r_sniffer r) && forallb (fun m => negb (D.compatible m pem_begin) || prefix_of pgp_begin m) (r_magics r).
+Fixpoint pem_routed (t : list row) : bool :=
+  match t with
+  | [] => false
+  | r :: rest => if is_pemfile_row r then true else row_lets_pem_pass r && pem_routed rest
+  end.
+
+Lemma prefix_compatible : forall m B x, prefix_of m (B ++ x) = true -> D.compatible m B = true.
+Proof.
+  unfold D.compatible. induction m as [|a m IH]; intros B x H; [reflexivity|].
+  destruct B as [|b B]; [apply orb_true_r|]. cbn [app prefix_of] in *.
+  apply andb_prop in H as [Hab H]. rewrite Hab. cbn [andb]. apply N.eqb_eq in Hab. subst b. rewrite N.eqb_refl. cbn [andb].
+  exact (IH B x H).
+Qed.
+
+Lemma prefix_of_trans : forall p m d, prefix_of p m = true -> prefix_of m d = true -> prefix_of p d = true.
+Proof.
+  induction p as [|a p IH]; intros m d H1 H2; [reflexivity|].
+  destruct m as [|b m]; [discriminate|]. destruct d as [|c d]; [discriminate|]. cbn [prefix_of] in *.
+  apply andb_prop in H1 as [E1 H1]. apply andb_prop in H2 as [E2 H2]. apply N.eqb_eq in E1, E2. subst b c.
+  rewrite N.eqb_refl. cbn [andb]. exact (IH m d H1 H2).
+Qed.
+
+Lemma prefix_of_app_cancel : forall B q x, prefix_of (B ++ q) (B ++ x) = prefix_of q x.
+Proof. induction B as [|b B IH]; intros q x; [reflexivity|]. cbn [app prefix_of]. now rewrite N.eqb_refl, IH. Qed.
+
+Section Routed.
+  Variable sniff : bytes -> bytes -> bool.
+  Variable parse : bytes -> bytes -> result info.
+
+  Lemma candidates_total : forall t name data, (forall r, In r t -> D.matches_name r name = Ok false) ->
+    exists l, D.candidates_in sniff t name data = Ok l.
+  Proof.
+    induction t as [|r t IH]; intros name data H; [now exists []|]. cbn [D.candidates_in]. unfold D.row_matches.
+    rewrite (H r (or_introl eq_refl)). destruct (IH name data (fun r' Hr' => H r' (or_intror Hr'))) as [l ->]. eauto.
+  Qed.
+
+  Lemma row_passes : forall r x, row_lets_pem_pass r = true -> prefix_of (bs "PGP ") x = false ->
+    D.matches_magic r (pem_begin ++ x) || D.smells_like sniff r (pem_begin ++ x) = false.
+  Proof.
+    intros r x H Hx. unfold row_lets_pem_pass in H. apply andb_prop in H as [Hs Hm].
+    unfold D.smells_like. apply is_nil_true in Hs. rewrite Hs, orb_false_r.
+    unfold D.matches_magic. destruct (existsb (fun m => prefix_of m (pem_begin ++ x)) (r_magics r)) eqn:E; [|reflexivity].
+    apply existsb_exists in E as [m [Hin Hp]]. rewrite forallb_forall in Hm. specialize (Hm m Hin).
+    apply orb_prop in Hm as [Hm|Hm].
+    - rewrite (prefix_compatible m pem_begin x Hp) in Hm. discriminate.
+    - pose proof (prefix_of_trans _ _ _ Hm Hp) as Ht. unfold pgp_begin in Ht. rewrite prefix_of_app_cancel in Ht. congruence.
+  Qed.
+
+  (* the candidates of a file that starts with "-----BEGIN " and is not PGP armor start with PEMFile, under every
+     name no row claims *)
+  Lemma pem_candidates : forall t name x, pem_routed t = true -> prefix_of (bs "PGP ") x = false ->
+    (forall r, In r t -> D.matches_name r name = Ok false) ->
+    exists rest, D.candidates_in sniff t name (pem_begin ++ x) = Ok (bs "PEMFile" :: rest).
+  Proof.
+    induction t as [|r t IH]; intros name x Hr Hx Hn; [discriminate|]. cbn [pem_routed] in Hr.
+    cbn [D.candidates_in]. unfold D.row_matches. rewrite (Hn r (or_introl eq_refl)).
+    assert (Hn' : forall r', In r' t -> D.matches_name r' name = Ok false) by (intros r' Hr'; apply Hn; now right).
+    destruct (is_pemfile_row r) eqn:Ep.
+    - unfold is_pemfile_row in Ep. apply andb_prop in Ep as [Ename Emag]. apply bytes_eqb_eq in Ename.
+      assert (D.matches_magic r (pem_begin ++ x) = true) as ->.
+      { unfold D.matches_magic. apply existsb_exists in Emag as [m [Hin Hm]]. apply bytes_eqb_eq in Hm. subst m.
+        apply existsb_exists. exists pem_begin. split; [exact Hin|apply prefix_of_app]. }
+      cbn [orb]. destruct (candidates_total t name (pem_begin ++ x) Hn') as [l ->]. rewrite Ename. eauto.
+    - apply andb_prop in Hr as [Hpass Hr]. rewrite (row_passes r x Hpass Hx).
+      destruct (IH name x Hr Hx Hn') as [rest ->]. eauto.
+  Qed.
+
+  Lemma pem_inspect_routed : forall t name x i, pem_routed t = true -> prefix_of (bs "PGP ") x = false ->
+    (forall r, In r t -> D.matches_name r name = Ok false) ->
+    parse (bs "PEMFile") (pem_begin ++ x) = Ok i ->
+    D.inspect_in sniff parse t name (pem_begin ++ x) = Ok i.
+  Proof.
+    intros t name x i Hr Hx Hn Hp. unfold D.inspect_in. destruct (pem_candidates t name x Hr Hx Hn) as [rest ->].
+    cbn [D.first_success]. now rewrite Hp.
+  Qed.
+End Routed.
+
+(* the regenerated table *)
+Lemma table_pem_routed : pem_routed D.table = true.
+Proof. vm_compute. reflexivity. Qed.
+
+Lemma prefix_of_app_stop : forall p l c r, ~ In c p -> prefix_of p (l ++ c :: r) = true -> prefix_of p l = true.
+Proof.
+  induction p as [|a p IH]; intros l c r Hc H; [reflexivity|].
+  destruct l as [|b l]; cbn [app prefix_of] in *.
+  - apply andb_prop in H as [E _]. apply N.eqb_eq in E. subst c. exfalso. apply Hc. now left.
+  - apply andb_prop in H as [E H]. rewrite E. cbn [andb]. apply (IH l c r); [|exact H]. intros Hin. apply Hc. now right.
+Qed.
+
+(* a bundle that starts with a block that is not PGP armor - whatever its label - reaches PEMFile first, under every
+   file name no row of the table claims, and file.Inspect reports what PEMFile reports: the blocks, all of them *)
+Theorem pem_bundle_inspected : forall sniff parse describe d name b items tail,
+  (forall data, parse (bs "PEMFile") data = pem_file pem_dec describe data) ->
+  (forall r, In r D.table -> D.matches_name r name = Ok false) ->
+  bundle_text_ok (([], b) :: items) tail = true -> is_pgp_type (ab_label b) = false ->
+  (forall b', In b' (listed_blocks (([], b) :: items)) -> describe (ablock_block b') = Ok (d (ablock_block b'))) ->
+  D.inspect sniff parse name (bundle_text (([], b) :: items) tail) =
+    Ok (match map (fun b' => d (ablock_block b')) (listed_blocks (([], b) :: items)) with
+        | [i] => i
+        | k => Info (bs "multiple PEM blocks") [] k
+        end)
+  /\ (1 <= length (listed_blocks (([], b) :: items)))%nat.
+Proof.
+  intros sniff parse describe d name b items tail Hparse Hname Hok Hpgp Hd.
+  assert (Hl : exists l, listed_blocks (([], b) :: items) = b :: l).
+  { unfold listed_blocks, listed_g. cbn [map snd filter ablock_block pb_type]. rewrite Hpgp. cbn [negb]. eauto. }
+  destruct Hl as [l Hl]. split; [|rewrite Hl; cbn; lia].
+  pose proof (pem_file_bytes describe d _ tail Hok Hd) as Hpf. rewrite Hl in Hpf |- *. cbn [map] in Hpf |- *.
+  set (text := bundle_text (([], b) :: items) tail) in *.
+  assert (Ht : exists x, text = pem_begin ++ x /\ prefix_of (bs "PGP ") x = false).
+  { unfold text, bundle_text. cbn [render_g app]. unfold armor. rewrite <- !app_assoc. eexists. split; [reflexivity|].
+    destruct (prefix_of (bs "PGP ") (ab_label b ++ pem_dashes ++ _)) eqn:E; [|reflexivity].
+    change pem_dashes with (45 :: bs "----") in E. cbn [app] in E.
+    apply prefix_of_app_stop in E; [unfold is_pgp_type in Hpgp; congruence|].
+    cbn. intros [H|[H|[H|[H|[]]]]]; discriminate. }
+  destruct Ht as (x & Ex & Hx).
+  unfold D.inspect. rewrite Ex. apply pem_inspect_routed; [exact table_pem_routed|exact Hx|exact Hname|].
+  rewrite Hparse, <- Ex, Hpf. destruct (map (fun b' => d (ablock_block b')) l); reflexivity.
 Qed.
